@@ -192,6 +192,11 @@ func drawTunCfg(e *Env) tunCfg {
 			if shape == 6 || shape == 8 {
 				c.WriteErr = []int{0, 0, 50, 200}[e.Choose("cfg.werr03", 4)] // a request or a repetition that cannot be written
 			}
+			if shape == 5 && e.Choose("cfg.close03", 2) == 0 {
+				// Close while Sends are waiting for their acknowledgements: they fail, none "succeeds"
+				c.Closers = 1 + e.Choose("cfg.closers03", 2)
+				c.CloseEarly = true
+			}
 		}
 		c.TCP = shape == 1 && e.Choose("cfg.tcp", 2) == 1
 		if (shape == 3 || shape == 4) && e.Choose("cfg.tshort", 3) == 0 {
@@ -226,6 +231,9 @@ func drawTunCfg(e *Env) tunCfg {
 		c.Senders = 1 + e.Choose("cfg.senders3", 3)
 		c.SendsEach = 1 + e.Choose("cfg.sends6", 6)
 		c.Inbound = e.Choose("cfg.inbound6", 7)
+		if shape == 7 && e.Choose("cfg.close05", 2) == 0 {
+			c.Closers, c.CloseEarly = 1, true // a Send overtaken by Close must not count as delivered to the bus
+		}
 		if shape >= 4 && shape <= 6 {
 			c.WriteErr = []int{0, 50, 200}[e.Choose("cfg.werr05", 3)] // to the gateway a datagram that could not be written is one that was lost
 		}
@@ -249,6 +257,12 @@ func drawTunCfg(e *Env) tunCfg {
 			c.Senders = 1 + e.Choose("cfg.senders3", 3)
 			c.SendsEach = 1 + e.Choose("cfg.sends12", 12)
 			c.Think = true
+			if e.Choose("cfg.slowff", 2) == 0 {
+				// writes that take a while (never longer than half a resend interval) are no fault of
+				// the connection either: nothing may come of them
+				c.SlowWrite = []int{200, 500}[e.Choose("cfg.slowffp", 2)]
+				c.SlowMax = e.PickDur("cfg.slowffmax", c.R/8, c.R/4, c.R/2)
+			}
 			break
 		}
 		c.Director = 1 + e.Choose("cfg.dir5", 5)
